@@ -4,6 +4,8 @@
 -/
 import Mrm.Proofs.NoCrash
 import Mrm.Proofs.Rc
+import Mrm.Props.C05
+import Mrm.Proofs.NoCompleted
 
 namespace Mrm
 
@@ -199,6 +201,36 @@ theorem C12_add (i : MergeInput) (h : DomC12 i = true) : holdsC12 i (addK i.k i.
         rw [hk']
         simp [addK, hc', merge, hb]
 
+/-- C05 at full strength: on a well-formed running order and a schema-shaped message, if the
+    addition raises at all — by C12 it can only be a MosMergeError — the running order is unchanged;
+    this includes self-contradictory messages (swapping an element with itself does not even raise). -/
+theorem C05_any_exception (i : MergeInput) (h : DomC12 i = true) :
+    holdsC05any i (addK i.k i.d i.m) = true := by
+  unfold holdsC05any
+  have h12 := C12_add i h
+  unfold holdsC12 at h12
+  cases he : (addK i.k i.d i.m).err with
+  | none => rfl
+  | some e =>
+    simp only
+    cases e with
+    | crash x => simp [he] at h12
+    | merge => simpa using C05_step_kind i.k i.d i.m _ he rfl
+    | completed => simpa using C05_step_kind i.k i.d i.m _ he rfl
+    | unknownType =>
+      -- merges never produce this class: only classification does
+      exfalso
+      unfold addK at he
+      split at he
+      · simp at he
+      · exact absurd he (merge_err_ne_unknown _ _ _)
+    | invalidCollection =>
+      exfalso
+      unfold addK at he
+      split at he
+      · simp at he
+      · exact absurd he (merge_err_ne_invalid _ _ _)
+
 /-- non-vacuity: a shaped, self-referential message (swap of a story with itself) on a well-formed
     running order whose stories have no timing metadata is inside the domain -/
 def exC12d : Xml := .node "mos" [] none none [.node "roCreate" [] none none
@@ -212,3 +244,5 @@ example : (match classify exC12m with | .ok .EAStorySwap => true | _ => false) =
     DomC12 ⟨exC12d, exC12m, .EAStorySwap⟩ = true ∧ (add exC12d exC12m).err = none := by decide
 
 end Mrm
+
+/-! ### C12 along histories -/
